@@ -1144,6 +1144,11 @@ func oraclePack(c *PackCase, jr *JobResult) []Problem {
 		}
 	}
 
+	// ---- C08/C09: an options value used a second time selects by its current lists
+	if jr.Note != "" {
+		add(pkProb("C08: %s", truncate(jr.Note, 400)))
+	}
+
 	// ---- C07: nothing in a jailed archive stems from outside the root
 	if c.Op == "tar-chroot" {
 		pkCount("c07:checked")
